@@ -362,7 +362,9 @@ func checkC04(c *Ctx) {
 		if fn.Pkg != p.Tcell {
 			continue
 		}
-		for _, call := range callsIn(fn, func(n string, cc *ssa.CallCommon) bool { return staticCallee(cc) == disengage || staticCallee(cc) == finalize }) {
+		for _, call := range callsIn(fn, func(n string, cc *ssa.CallCommon) bool {
+			return staticCallee(cc) == disengage || staticCallee(cc) == finalize
+		}) {
 			eachInstr(fn, func(in ssa.Instruction) {
 				if isWrite(in) && reachableAfter(call, in) {
 					late = append(late, fn.Name()+"@"+p.pos(in.Pos()))
@@ -466,7 +468,7 @@ func checkC04(c *Ctx) {
 	// togglers
 	type toggler struct {
 		method, field, callee string
-		value  string // expected constant for both the store and the call ("" = parameter-derived)
+		value                 string // expected constant for both the store and the call ("" = parameter-derived)
 	}
 	for _, tg := range []toggler{
 		{"EnableMouse", "mouseFlags", "enableMouse", ""}, {"DisableMouse", "mouseFlags", "enableMouse", "0"},
